@@ -46,7 +46,9 @@ RANGES = ["none", "wide", "narrow", "lo_only", "hi_only", "tie",
           "excl_open", "excl_closed", "at_peak"]
 
 A0S = [4.0, 2.5, 2.0, 1.5]
-SIDES = ["low", "one", "high", "drop_in", "drop_out"]
+# shelf: beside the peak the curve comes down by one part in 1e7 only and stays there (a peak whose prominence
+# is far below any absolute floor; still THE strict local maximum of the curve)
+SIDES = ["low", "one", "high", "drop_in", "drop_out", "shelf"]
 STD_CONST = {"c0.1": 0.1, "c1.5": math.log(1.5), "c1.7": math.log(1.7), "c1.9": math.log(1.9),
              "c2.2": math.log(2.2), "c2.8": math.log(2.8), "c3.5": math.log(3.5)}
 STDS = list(STD_CONST) + ["b_f0", "b_lo_in", "b_lo_out", "b_hi_in", "b_hi_out",
@@ -98,6 +100,8 @@ def _level(kind, a0, ratio):
         return 0.4 * a0 if ratio >= 2.5 else 0.6 * a0
     if kind == "drop_out":                    # below A0/2 only beyond a factor 4
         return 0.4 * a0 if ratio > 4.01 else 0.6 * a0
+    if kind == "shelf":
+        return a0 * (1.0 - 1e-7)
     raise KeyError(kind)
 
 
@@ -210,13 +214,23 @@ def search_range(kind, freq, p, second):
 # ---------------------------------------------------------------------------
 # executing the real code
 
+class ArgumentModified(Exception):
+    pass
+
+
 def _call(fn, args, rng, verbose):
     buf = io.StringIO()
+    # the range is the caller's object: a tuple for the silent call, a list (which the caller keeps and would
+    # use for the next curve) for the verbose ones; after the call it must still hold what the caller wrote
+    arg = tuple(rng) if verbose == 0 else list(rng)
     try:
         with contextlib.redirect_stdout(buf):
-            out = fn(*args, search_range_in_hz=rng, verbose=verbose)
+            out = fn(*args, search_range_in_hz=arg, verbose=verbose)
     except Exception as e:      # noqa: BLE001 - judged by the caller
         return ("raised", type(e).__name__, str(e)[:160]), buf.getvalue()
+    if list(arg) != list(rng):
+        return ("raised", "ArgumentModified", f"search_range_in_hz {list(rng)} was overwritten with {list(arg)}"), \
+            buf.getvalue()
     return out, buf.getvalue()
 
 
@@ -598,7 +612,8 @@ def describe(tier):
              + (f"all configurations of (A0, flanks, std curve, window length, count) within {rk} deviations"
                 if rk is not None else "the full product of (2 flank pairs, constant and bump std curves, "
                                        "window length, count)")
-             + "; every case is executed with verbose 0, 1 and 2; a case is non-trivial/distinct by "
+             + "; every case is executed with verbose 0 (range as a tuple), 1 and 2 (range as a list that must afterwards "
+             "still hold what the caller wrote); flank kind 'shelf' = a peak of prominence 1e-7; a case is non-trivial/distinct by "
              "(function, grid, f0, second peak, range kind, reference verdict sets)",
         bounds=dict(grids=GRID_NAMES, f0=F0S, second=SECONDS, ranges=RANGES, a0=A0S, flanks=SIDES,
                     std_curves=STDS, sigma_f_over_f0=SIGMA_F, window_lengths=LWS, window_counts=NWS,
